@@ -102,6 +102,15 @@ VIDENTS = ["Alpha", "BetaGamma", "Unit", "NewT", "Conf", "LoremIpsum", "X", "Htt
 
 FEATURE_MIN = {"nonzero": 8, "map_inc": 6, "with_u8_plus1": 6, "with_upper": 6, "with_fail": 4}
 FEATURE_COUNT = {}
+RR = {}
+
+
+def rr(key, options):
+    """round-robin choice: every option of a feature is used, regardless of luck"""
+    i = RR.get(key, 0)
+    RR[key] = i + 1
+    return options[i % len(options)]
+
 
 receivers = []   # dicts
 types_by_name = {}
@@ -135,6 +144,21 @@ def struct_samples(r, n=4):
         f = rng.choice(bad)
         others = [i for i in base if not (i == f["name"] or i.startswith(f["name"] + " ") or i.startswith(f["name"] + "("))]
         invalid.append("(" + ", ".join(others + [f["name"] + rng.choice(f["ty"].invalid)]) + ")")
+        # several mistakes at once — a rejected value (itself possibly a nested receiver with several
+        # mistakes: bundles inside bundles), an unknown name or a literal, and a repeat
+        extra = ["zzz_unknown = 1"] if not (r["allow_unknown"] or r["has_flatten"]) else ["\"lit\""]
+        # prefer the deepest nested receiver, and its own several-mistakes sample (always its last one)
+        f = max(bad, key=lambda x: x["ty"].depth)
+        others = [i for i in base if not (i == f["name"] or i.startswith(f["name"] + " ") or i.startswith(f["name"] + "("))]
+        deep = f["ty"].invalid[-1] if f["ty"].depth > 0 else rng.choice(f["ty"].invalid)
+        many = others + [f["name"] + deep] + extra
+        if single:
+            g = rng.choice(single)
+            if g["name"] != f["name"]:
+                many.append(g["name"] + pick_valid(g["ty"]))
+                many.append(g["name"] + pick_valid(g["ty"]))
+        rng.shuffle(many)
+        invalid.append("(" + ", ".join(many) + ")")
     return valid, invalid
 
 
@@ -429,7 +453,8 @@ def gen_enum(idx):
             v["word"] = True
             word_used = True
             v["opts"].append(rng.choice(["word", "word", "word = true"]))
-        elif kind == "unit" and not word_used and rng.random() < 0.1:
+        elif kind == "unit" and not word_used and rng.random() < (0.6 if FEATURE_COUNT.get("word_false", 0) < 3 else 0.1):
+            FEATURE_COUNT["word_false"] = FEATURE_COUNT.get("word_false", 0) + 1
             # declared, but not a word variant (darling allows `word` on at most one variant, whatever its value)
             word_used = True
             v["opts"].append("word = false")
@@ -554,7 +579,7 @@ def gen_outer(idx, kind):
         return None
     k = rng.randint(1, 3)
     attr_names = rng.sample(ATTR_NAMES, k)
-    fwd = rng.choice([None, None, "all", "list", "list2", "empty"])
+    fwd = rr("fwd", [None, "all", None, "list", "list2", "all", "empty"])
     magic = []
     pool = {"FD": ["ident", "vis", "generics"], "FF": ["ident", "vis", "ty"], "FV": ["ident", "discriminant"],
             "FT": ["ident", "bounds", "default"], "FA": []}[kind]
@@ -563,11 +588,11 @@ def gen_outer(idx, kind):
             magic.append(m)
     attrs_field = None
     if fwd is not None and rng.random() < 0.8:
-        attrs_field = rng.choice(["plain", "plain", "count", "fail"])
+        attrs_field = rr("attrs_field", ["plain", "count", "plain", "fail"])
     body = None
     def wrap(name, syn_ty):
         # an entry receiver plain, or inside the two wrappers that implement the entry traits
-        return rng.choice([name, name, "SpannedValue<%s>" % name, "WithOriginal<%s, %s>" % (name, syn_ty)])
+        return rr("entry_wrapper", [name, "SpannedValue<%s>" % name, name, "WithOriginal<%s, %s>" % (name, syn_ty)])
     if kind == "FD" and rng.random() < 0.6:
         v = rng.choice(["()", "syn::Ident", "syn::Variant", "Vec<syn::Attribute>"] + [wrap(n, "syn::Variant") for n in fv_names[-3:]])
         f = rng.choice(["()", "syn::Type", "syn::Visibility", "syn::Field", "Vec<syn::Attribute>"] + [wrap(n, "syn::Field") for n in ff_names[-3:]])
@@ -635,10 +660,10 @@ def emit_outer(r, out):
             ty = rng.choice(["ast::Generics<syn::GenericParam>", "ast::Generics<ast::GenericParam<syn::Ident>>",
                              "ast::Generics<ast::GenericParam<syn::TypeParam>>", "ast::Generics<ast::GenericParam<Vec<syn::Attribute>>>"] +
                             ["ast::Generics<ast::GenericParam<%s>>" % n for n in ft_names[-3:]])
-            w = rng.random()
-            if w < 0.2:
+            w = rr("generics_wrapper", ["plain", "result", "plain", "withorig", "plain"])
+            if w == "result":
                 ty = "darling::Result<%s>" % ty
-            elif w < 0.4:
+            elif w == "withorig":
                 ty = "WithOriginal<%s, syn::Generics>" % ty
         members.append((m, ty, None))
     if r["attrs_field"]:
